@@ -146,6 +146,16 @@ theorem writer_ops_inventory :
     (∀ t ∈ Generated.WriterOps.tofileTargets, t = "self.file_obj") := by
   decide +kernel
 
+/-- every *occurrence* of a writer variable in a function that writes an output file is the receiver of a
+    direct `cwrite`/`write`/`close` call, a `with` item, or a read of `.name`; the writer object never escapes
+    (no `w.file_obj…`, no passing it on), and these functions make no call into `os`/`shutil`/`io`/`mmap`/
+    `fcntl`/`open`/`tempfile` and never ask for a file descriptor.  So the only way bytes reach an output
+    file is the modelled `write`/`cwrite` sequence (no preallocation, truncation or positional write). -/
+theorem writer_site_uses :
+    (∀ p ∈ Generated.WriterOps.siteUses, p.2 ∈ ["call:cwrite", "call:write", "call:close", "with", "attr:name"]) ∧
+    Generated.WriterOps.siteForeignCalls = [] := by
+  decide +kernel
+
 /-! ## Examples / non-vacuity: an 8-bit, 2-channel file, 3 samples written as blocks of 1 and 2 samples
 (`exKvs`, `exHdr`, `exBlocks`, `exFile` are defined in `SppModel/Lemmas/Writer.lean`; the header is 57 bytes) -/
 
